@@ -28,15 +28,16 @@ import (
 // Keys are reduced modulo nkeys. For every kit mk is strictly increasing in key under less, except for the
 // "weird" table kits (f64w, strw), where some different keys are equivalent under < (-0 and +0).
 type kit[E any] struct {
-	name   string
-	size   uintptr
-	nkeys  int
-	hasIdx bool
-	mk     func(key, idx int) E
-	dec    func(e E) (key, idx int, ok bool)
-	less   func(a, b E) bool
-	junk   func(m int) any
-	ord    *ordOps[E] // non-nil for ordered element types
+	name    string
+	size    uintptr
+	nkeys   int
+	hasIdx  bool
+	mk      func(key, idx int) E
+	dec     func(e E) (key, idx int, ok bool)
+	less    func(a, b E) bool
+	junk    func(m int) any
+	junkMax int        // upper bound for m (big objects); 0 = none
+	ord     *ordOps[E] // non-nil for ordered element types
 }
 
 // ordOps are the helpers that exist for ordered element types only.
@@ -442,7 +443,7 @@ func stringKit[E interface {
 			key, ok := fixedStringKey(string(e), width)
 			return key, -1, ok && key < wideKeys
 		},
-		less: ltOf[E](), junk: junkBytes(width), ord: ordOf[E]()}
+		less: ltOf[E](), junk: junkBytes(width), junkMax: (4 << 20) / width, ord: ordOf[E]()}
 }
 
 // weirdStrings: different lengths, the empty string, NUL bytes and bytes >= 0x80 (byte-wise unsigned order).
